@@ -233,23 +233,28 @@ class SRC:
         calloutparsers.Xcallouts.Xcallouts module if it's there.
         (X = creator ID in lower case)
         """
-        try:
-            name = self.creatorID.lower() + "callouts"
-            calloutParserMod = "calloutparsers." + name + "." + name
-            if calloutParserMod in calloutParsers:
-                cls = calloutParsers[calloutParserMod]
-                if cls is None:
-                    # The module, which was previously checked, is not found.
-                    return
-            else:
+        name = self.creatorID.lower() + "callouts"
+        calloutParserMod = "calloutparsers." + name + "." + name
+        if calloutParserMod in calloutParsers:
+            cls = calloutParsers[calloutParserMod]
+        else:
+            # Only a failed import marks the module as not found; a failure
+            # while describing one procedure must not affect later PELs.
+            try:
                 cls = importlib.import_module(calloutParserMod)
-                calloutParsers[calloutParserMod] = cls
+            except:
+                cls = None
+            calloutParsers[calloutParserMod] = cls
 
+        if cls is None:
+            # The module is not found.
+            return
+
+        try:
             desc = cls.getMaintProcDesc(procName)
             if desc:
                 out["Description"] = json.loads(desc)
         except:
-            calloutParsers[calloutParserMod] = None
             pass
 
     def getCallouts(self, out: OrderedDict, config: Config):
